@@ -97,6 +97,19 @@ def keyrace(rng):
     return lines
 
 
+def fastexit(rng):
+    """threads that call p_uthread_exit the moment they start, while the creating call is still on its way back (it is held up for 2 ms after it
+    released the start-up spinlock): the exit code still arrives, the exit call does not return, detached threads end as well"""
+    lines = []
+    n = rng.randint(1, 3)
+    for h in range(1, n + 1):
+        j = rng.choice([1, 1, 0])
+        lines.append("newfast %d %d" % (h, j))
+        lines += ["join %d" % h, "unref %d" % h] if rng.random() < 0.7 else ["unref %d" % h]
+    lines.append("epoch")
+    return lines
+
+
 def keyfree(rng):
     """the reference to a TLS key is released (p_uthread_local_free) while threads that stored values under it are still alive:
     the key itself stays, and every value left under it is destroyed when its thread exits"""
@@ -151,7 +164,7 @@ def run(ctx):
     files = []
     nscen = 60 if ctx.quick else 600
     for variant in (["default", "asan"] if ctx.quick else ["default", "asan", "sim"]):
-        exe = build.driver("drv_thread", ["drv_thread.c"], variant=variant, wraps=["pthread_key_create"])
+        exe = build.driver("drv_thread", ["drv_thread.c"], variant=variant, wraps=["pthread_key_create", "p_spinlock_unlock"])
         qenv = {"VERIF_QUARANTINE": "1"} if variant != "asan" else None
         nb = 3 if ctx.quick else 12
         for batch in range(nb + 1):
@@ -161,7 +174,7 @@ def run(ctx):
                     lines += unrefrace(rng)
             for _ in range(0 if batch == nb else (nscen // 3 if ctx.quick else nscen // 12)):
                 r_ = rng.random()
-                lines += scenario(rng, rng.randint(1, 5)) if r_ < 0.5 else keyrace(rng) if r_ < 0.72 else keyfree(rng) if r_ < 0.82 else unrefrace(rng)
+                lines += scenario(rng, rng.randint(1, 5)) if r_ < 0.5 else keyrace(rng) if r_ < 0.68 else keyfree(rng) if r_ < 0.78 else fastexit(rng) if r_ < 0.86 else unrefrace(rng)
             sp = ctx.path("th_%s_%d.script" % (variant, batch))
             open(sp, "w").write("\n".join(lines) + "\n")
             base = ctx.path("th_%s_%d" % (variant, batch))
